@@ -330,6 +330,15 @@ class RangeDomain:
                 store_through(ex, args[0], Iter(it.items, it.pos + 1))
                 return Adt("core::option::Option", "Some", [TOP if v is OPAQUE else v])
             return Adt("core::option::Option", "None", [])
+        if n == "to_digit" and d.startswith("core::char") and len(a) == 2:
+            # char::to_digit(radix): None, or Some(v) with v < radix (radix ≤ 36 or the call panics itself — counted as a library precondition)
+            hi = a[1] - 1 if isinstance(a[1], int) and 1 <= a[1] <= 36 else 35
+            return Adt("core::option::Option", ("?", ("digit?", fr.body.path, term["span"].get("line")), {0: "None", 1: "Some"}), [Rng(0, hi)])
+        if n == "branch" and fk.get("trait") == "core::ops::Try" and len(a) == 1 and isinstance(a[0], Adt) and a[0].name == "core::option::Option" and a[0].variant is not None:
+            v = a[0]
+            if isinstance(v.variant, tuple):
+                return Adt("core::ops::ControlFlow", ("?", v.variant[1], {0: "Some", 1: "None"}), list(v.fields))
+            return Adt("core::ops::ControlFlow", "Continue" if v.variant == "Some" else "Break", list(v.fields))
         if n == "leading_zeros" and len(a) == 1 and isinstance(a[0], int):
             return (128 if "u128" in fk.i else 64 if "u64" in fk.i else 32) - a[0].bit_length()
         if n == "len" and "slice" in d and len(a) == 1:
@@ -433,6 +442,11 @@ def analyse_asserts(F, asserts, live=None):
         if r not in done:
             done.add(r)
             run_top(F, dom, F.bodies[r], lambda d: d in int_fns)
+    # a closure handed to a library adaptor (try_fold, map_or, …) is not executed inside its parent: analyse its body on its own,
+    # captured values and arguments unknown (a sound over-approximation of every call the adaptor can make)
+    for p in fns:
+        if own_root(p) != p and not any(own_root(p) in (dom.sites.get((q, bb)) or {}) for (_k, q, bb, _w) in asserts if q == p):
+            run_top(F, dom, F.bodies[p], lambda d: d in int_fns)
     callers = {}
     for b in F.fn_bodies():
         if live is not None and own_root(b.rec["path"]) not in live:
@@ -451,6 +465,8 @@ def analyse_asserts(F, asserts, live=None):
         byroot = dom.sites.get((p, bb)) or {}
         r = own_root(p)
         if r not in deferred:
+            if r not in byroot and p != r and p in byroot:
+                return {p: byroot[p]}
             return {r: byroot[r]} if r in byroot else {}
         out = {root: st for root, st in byroot.items() if root not in deferred and (live is None or own_root(root) in live)}
         # a closure analysed on its own (captured values unknown) adds nothing when the function that builds and runs it
@@ -536,6 +552,49 @@ def folded_reachable(b):
                 continue
         todo.extend(succ[x])
     return seen
+
+
+_INT_RANGE = {"u8": (0, 2 ** 8 - 1), "u16": (0, 2 ** 16 - 1), "u32": (0, 2 ** 32 - 1), "u64": (0, 2 ** 64 - 1), "u128": (0, 2 ** 128 - 1), "usize": (0, 2 ** 64 - 1),
+              "i8": (-2 ** 7, 2 ** 7 - 1), "i16": (-2 ** 15, 2 ** 15 - 1), "i32": (-2 ** 31, 2 ** 31 - 1), "i64": (-2 ** 63, 2 ** 63 - 1), "i128": (-2 ** 127, 2 ** 127 - 1),
+              "isize": (-2 ** 63, 2 ** 63 - 1)}
+
+
+def lossless_conversion_unwrap(b, bb):
+    """`T::try_from(x).unwrap()` / `x.try_into().unwrap()` between integer types where every value of the source type is a value of
+    the destination type on the analysed target (64-bit usize: the facts are those of this build): the Result is always Ok"""
+    t = b.blocks[bb]["term"]
+    if not t.get("args") or t["args"][0].get("k") not in ("copy", "move") or t["args"][0]["place"]["p"]:
+        return False
+    L = t["args"][0]["place"]["l"]
+    for _ in range(4):
+        defs = []
+        for blk in b.blocks:
+            for st in blk["stmts"]:
+                if st["k"] == "assign" and st["place"] == {"l": L, "p": []}:
+                    defs.append(("st", st["rv"]))
+            t2 = blk["term"]
+            if t2["k"] == "call" and t2.get("dest") == {"l": L, "p": []}:
+                defs.append(("call", t2))
+        if len(defs) != 1:
+            return False
+        kind, x = defs[0]
+        if kind == "st":
+            if x["k"] == "use" and x["op"].get("k") in ("copy", "move") and not x["op"]["place"]["p"]:
+                L = x["op"]["place"]["l"]
+                continue
+            return False
+        fn = x.get("fn") or {}
+        ta = fn.get("args") or []
+        if fn.get("trait") == "core::convert::TryFrom" and fn.get("name") == "try_from" and len(ta) == 2:
+            dst, src = ta
+        elif fn.get("trait") == "core::convert::TryInto" and fn.get("name") == "try_into" and len(ta) == 2:
+            src, dst = ta
+        else:
+            return False
+        if src in _INT_RANGE and dst in _INT_RANGE:
+            return _INT_RANGE[dst][0] <= _INT_RANGE[src][0] and _INT_RANGE[src][1] <= _INT_RANGE[dst][1]
+        return False
+    return False
 
 
 def guarded_unwrap(repo, b, bb):
@@ -712,6 +771,9 @@ def rule_nopanic_core(prop, repo_rel, entries, cv_factory):
         nparams = len(rb.rec.get("inputs") or []) if rb.rec.get("inputs") is not None else rb.arg_count
         is_const_init = nparams == 0
         key = "%s:nopanic:%s→%s" % (prop, d, dd.split("<")[0].split("::")[-1] or "panic")
+        if (t.get("fn") or {}).get("name") in ("unwrap", "expect") and lossless_conversion_unwrap(b, bb):
+            R.ok(sample={"site": loc_of(b, bb), "fn": d, "accepted_because": "integer conversion whose source range is inside the destination range on this target: always Ok"})
+            continue
         if not is_const_init and (t.get("fn") or {}).get("name") in ("unwrap", "expect") and guarded_unwrap(repo, b, bb):
             R.ok(sample={"site": loc_of(b, bb), "fn": d, "accepted_because": "dominated by the true edge of is_some()/is_ok() on the same value"})
             continue
